@@ -16,6 +16,7 @@
 #define CHAISCRIPT_BOOTSTRAP_STL_HPP_
 
 #include <functional>
+#include <limits>
 #include <memory>
 #include <stdexcept>
 #include <typeinfo>
@@ -137,6 +138,16 @@ namespace chaiscript::bootstrap::standard_library {
       std::advance(itr, pos);
       container.erase(itr);
     }
+
+    /// A position given as some arithmetic type other than int: checked at its full width,
+    /// so that 2^32 + 1 is past the end of every container instead of meaning position 1
+    inline int checked_position(const Boxed_Number &pos) {
+      const auto p = pos.get_as<long long>();
+      if (p < 0 || p > std::numeric_limits<int>::max()) {
+        throw std::range_error("Position past end of range");
+      }
+      return static_cast<int>(p);
+    }
   } // namespace detail
 
   template<typename ContainerType>
@@ -162,6 +173,18 @@ namespace chaiscript::bootstrap::standard_library {
             /// \todo we are preferring to keep the key as 'int' to avoid runtime conversions
             /// during dispatch. reevaluate
             return c.at(static_cast<typename ContainerType::size_type>(index));
+          }),
+          "[]");
+
+    // Indexes of any other arithmetic type are taken as they are, so that a 64 bit index is
+    // not narrowed to int (2^32 would alias element 0) before at() checks it.
+    m.add(fun([](ContainerType &c, const Boxed_Number &index) -> typename ContainerType::reference {
+            return c.at(static_cast<typename ContainerType::size_type>(index.get_as<long long>()));
+          }),
+          "[]");
+
+    m.add(fun([](const ContainerType &c, const Boxed_Number &index) -> typename ContainerType::const_reference {
+            return c.at(static_cast<typename ContainerType::size_type>(index.get_as<long long>()));
           }),
           "[]");
   }
@@ -213,15 +236,22 @@ namespace chaiscript::bootstrap::standard_library {
   /// http://www.sgi.com/tech/stl/Sequence.html
   template<typename ContainerType>
   void sequence_type(const std::string & /*type*/, Module &m) {
-    m.add(fun(&detail::insert_at<ContainerType>), []() -> std::string {
+    const auto insert_name = []() -> std::string {
       if (typeid(typename ContainerType::value_type) == typeid(Boxed_Value)) {
         return "insert_ref_at";
       } else {
         return "insert_at";
       }
-    }());
+    }();
+
+    m.add(fun(&detail::insert_at<ContainerType>), insert_name);
+    m.add(fun([](ContainerType &c, const Boxed_Number &pos, const typename ContainerType::value_type &v) {
+            detail::insert_at(c, detail::checked_position(pos), v);
+          }),
+          insert_name);
 
     m.add(fun(&detail::erase_at<ContainerType>), "erase_at");
+    m.add(fun([](ContainerType &c, const Boxed_Number &pos) { detail::erase_at(c, detail::checked_position(pos)); }), "erase_at");
   }
 
   /// Add back insertion sequence concept to the given ContainerType
